@@ -77,6 +77,8 @@ type envState struct {
 	remotePages    []string
 	remoteServed   int
 	remoteRequests []string
+	remoteLog      []string
+	uuids          int
 	// failWriteSuffix: writes to files whose path ends with it fail (h.FailWrites)
 	failWriteSuffix string
 	recycleKeys  bool
